@@ -260,7 +260,22 @@ func (m *Muxer) validate() error {
 	}
 	// Check that frame dimensions fit within the canvas.
 	canvasW, canvasH := m.canvasSize()
+	// The canvas must be storable: 24-bit width-1/height-1 and an area below
+	// MaxImageArea (as libwebp's CreateVP8XChunk requires).
+	if canvasW > container.MaxCanvasSize || canvasH > container.MaxCanvasSize ||
+		uint64(canvasW)*uint64(canvasH) >= container.MaxImageArea {
+		return fmt.Errorf("%w: canvas %dx%d exceeds the container limits", ErrMuxValidation, canvasW, canvasH)
+	}
 	for i, f := range m.frames {
+		// Offsets are stored halved in 24 bits: negative or too large values would wrap.
+		if f.opts.OffsetX < 0 || f.opts.OffsetY < 0 ||
+			f.opts.OffsetX/2 >= container.MaxPositionOff || f.opts.OffsetY/2 >= container.MaxPositionOff {
+			return fmt.Errorf("%w: frame %d offset (%d,%d) out of range", ErrMuxValidation, i, f.opts.OffsetX, f.opts.OffsetY)
+		}
+		// A still image has no ANMF header to carry an offset.
+		if !animated && (f.opts.OffsetX != 0 || f.opts.OffsetY != 0) {
+			return fmt.Errorf("%w: non-animated image with non-zero offset (%d,%d)", ErrMuxValidation, f.opts.OffsetX, f.opts.OffsetY)
+		}
 		fw, fh := frameDimensions(f.data)
 		if fw == 0 || fh == 0 {
 			continue // could not parse dimensions, skip check
